@@ -491,7 +491,7 @@ def run(rep, tier, seed):
         grid_case('gt', f, off, True)
         if us == 0:
             grid_case('utc', f, off, 1969 <= y <= 2068)
-    n_rand = 30000 if thorough else 1000
+    n_rand = 150000 if thorough else 5000
     for _ in range(n_rand):
         y = rng.choice(YEARS + [rng.randrange(1, 10000)] * 3)
         mo = rng.randrange(1, 13)
@@ -506,7 +506,7 @@ def run(rep, tier, seed):
             grid_case('utc', (2000, 2, 29, 23, 59, 59, 0), off, True)
 
     # ---- (b) grammar strings, then the malformed stream
-    n_str = 300000 if thorough else 6000
+    n_str = 900000 if thorough else 30000
     for i in range(n_str):
         kind = 'gt' if rng.random() < 0.7 else 'utc'
         text = gen_grammar(rng, kind)
@@ -551,24 +551,26 @@ def run(rep, tier, seed):
 
 
 def replay(path):
+    """re-run the failing inputs stored in a replay file against the current tree"""
     d = json.load(open(path))
-    cases = [f['replay'] for f in d.get('failures', [])] or d.get('cases', [])
+    stored = [(f.get('signature'), f['replay']) for f in d.get('failures', [])] or [(None, c) for c in d.get('cases', [])]
     still = 0
-    if not cases:
+    if not stored:
         print(json.dumps(d, indent=1)[:4000])
         print('no stored failing inputs in this replay file (kind=%s)' % d.get('kind'))
         return 0
-    for c in cases:
+    for sig, c in stored:
         rep = common.Report('C20', 'replay', 0)
-        rep.known = []                               # show known findings as failures too when replaying
+        rep.known = []                               # known findings count as failures when replayed
         try:
             run_case(rep, None, c)
         except Exception as e:  # noqa
             print('ERROR replaying %r: %r' % (c, e))
             continue
-        if rep.failures:
+        hits = [f for f in rep.failures if sig is None or f['signature'] == sig]
+        if hits:
             still += 1
-            print('STILL FAILS %s: %s' % (rep.failures[0]['signature'], rep.failures[0]['what']))
+            print('STILL FAILS %s: %s' % (hits[0]['signature'], hits[0]['what']))
         else:
-            print('holds now: %s' % json.dumps(c, sort_keys=True))
+            print('holds now (%s): %s' % (sig, json.dumps(c, sort_keys=True)))
     return 1 if still else 0
